@@ -15,7 +15,7 @@ Proof.
   unfold start_message.
   destruct (parse_request o (removelast ls)) as [m| |]; try discriminate.
   destruct (get_header h_content_length (m_headers m)) as [v|].
-  - destruct (nonempty v && forallb dec_digit v); [|discriminate].
+  - destruct (nonempty v && forallb dec_digit v && (lenN v <=? int_max_str_digits)); [|discriminate].
     destruct (has_header h_sec_websocket_key1 (m_headers m)); [discriminate|].
     repeat (match goal with |- context [if ?b then _ else _] => destruct b end);
       intro H; inversion H; subst; cbn; auto.
